@@ -28,12 +28,12 @@ def certMainOk (version : Nat) (p : Prog) (c : ProgCert) : Bool :=
   | .ok r => decide (r.G = c.Gm) && r.start == c.sm
   | .error _ => false
 
-def certSubsOk (version : Nat) (p : Prog) (c : ProgCert) : Bool :=
+def certSubsOk (version : Nat) (fp : Bool) (p : Prog) (c : ProgCert) : Bool :=
   p.subs.all (fun sd =>
     match c.prog.subs.lookup (subLabel sd.id) with
     | none => true
     | some (G, s) =>
-      match genSub version false false p sd (spillSlots sd) with
+      match genSub version fp false p sd (spillSlotsC fp sd) with
       | .ok r => decide (r.G = G) && r.start == s
       | .error _ => false)
 
@@ -45,13 +45,22 @@ def graphCallsOk (subs : List (String × Graph × Nat)) (G : Graph) : Bool :=
 def certClosed (c : ProgCert) : Bool :=
   graphCallsOk c.prog.subs c.Gm && c.prog.subs.all (fun e => graphCallsOk c.prog.subs e.2.1)
 
-/-- the conditions of `inFragmentR` for the main routine and the routines of the certificate -/
-def fragmentOnCert (p : Prog) (c : ProgCert) : Bool :=
-  mainOk p && p.subs.all (fun sd => !(c.prog.subs.lookup (subLabel sd.id)).isSome || subOk p sd)
+/-- routine `f` has a graph in the certificate -/
+def certHas (c : ProgCert) (f : Nat) : Bool := (c.prog.subs.lookup (subLabel f)).isSome
+
+/-- the conditions of `inFragmentC fp` for the main routine and the routines of the certificate;
+    under the frame-pointer convention also: the parameter slots are pairwise distinct, and the
+    routines a certified routine may call without being re-entered (`okCallsOf`) reach certified
+    routines only -/
+def fragmentOnCert (fp : Bool) (p : Prog) (c : ProgCert) (dyn : Bool := false) : Bool :=
+  mainOkC fp p dyn && p.subs.all (fun sd => !certHas c sd.id || subOkC fp p sd dyn) &&
+  (!fp || (nodupB (allParamSlots p) &&
+    p.subs.all (fun sd => !certHas c sd.id ||
+      (okCallsOf p sd).all (fun g => sd.reenters.contains g || (reachSet p g).all (certHas c)))))
 
 /-- everything `Proofs.C02Compile.compile_correct_validated_prog` assumes, as one decidable check -/
-def composedOk (version : Nat) (p : Prog) (P : Program) (c : ProgCert) : Bool :=
-  fragmentOnCert p c && certMainOk version p c && certSubsOk version p c && certClosed c && checkCert P c
+def composedOk (version : Nat) (fp : Bool) (p : Prog) (P : Program) (c : ProgCert) (dyn : Bool := false) : Bool :=
+  fragmentOnCert fp p c dyn && certMainOk version p c && certSubsOk version fp p c && certClosed c && checkCert P c
 
 /-- the renamed program of `buildCert` (its discovery pass, repeated) -/
 def renamedProg (version : Nat) (fp : Bool) (p : Prog) (P : Program) : Except String Prog := do
@@ -66,16 +75,17 @@ def renamedProg (version : Nat) (fp : Bool) (p : Prog) (P : Program) : Except St
   if !bindingsOk bs then throw "bindings are not a bijection"
   pure (renameProg (applyBindings bs) p)
 
-/-- certificate check + link check for the scratch-slot convention: `.ok true` iff the composed
+/-- certificate check + link check: `.ok true` iff the composed
     theorem applies to (the renamed form of) this program and this TEAL text -/
-def validateComposed (version : Nat) (p : Prog) (P : Program) : Except String Bool := do
-  let p' ← renamedProg version false p P
-  let (c, _) ← validateProgCert version false p P
-  pure (composedOk version p' P c)
+def validateComposed (version : Nat) (fp : Bool) (p : Prog) (P : Program) (dyn : Bool := false) :
+    Except String Bool := do
+  let p' ← renamedProg version fp p P
+  let (c, _) ← validateProgCert version fp p P
+  pure (composedOk version fp p' P c dyn)
 
 /-- `validateComposed` as a Boolean (errors count as `false`) -/
-def composedB (version : Nat) (p : Prog) (P : Program) : Bool :=
-  match validateComposed version p P with
+def composedB (version : Nat) (fp : Bool) (p : Prog) (P : Program) (dyn : Bool := false) : Bool :=
+  match validateComposed version fp p P dyn with
   | .ok b => b
   | .error _ => false
 
